@@ -1632,7 +1632,11 @@ func (e *lsEngine) Run(src *sim.Src, log *sim.Log, res *sim.Result) {
 	dec := obj{"script": names, "schedule": res.Sched, "faults": res.Faults, "documents": len(sc.diags)}
 	var texts []string
 	for _, d := range sc.diags {
-		texts = append(texts, fmt.Sprintf("op#%d %s v%d: %q", d.opIndex, d.uri, d.version, d.text))
+		t := d.text
+		if len(t) > 1500 {
+			t = t[:1500] + "…"
+		}
+		texts = append(texts, fmt.Sprintf("op#%d %s v%d (%d bytes): %q", d.opIndex, d.uri, d.version, len(d.text), t))
 	}
 	dec["document_texts"] = texts
 	for _, d := range sc.diags {
